@@ -33,6 +33,14 @@ ASSUMPTIONS = ["'left_of' between incomings, first occurrences of signs and area
 SHARDS = {"quick": 4, "thorough": 16}
 
 
+def _forget(sc, i):
+    """network-level removals bypass the scenario's id registry; keep the harness scenario usable (best effort, the
+    registry is not judged here)"""
+    reg = getattr(sc, "_id_set", None)
+    if isinstance(reg, set):
+        reg.discard(i)
+
+
 def gen_network(rng):
     import numpy as np
     from commonroad.common.common_lanelet import LaneletType, LineMarking, StopLine
@@ -278,7 +286,7 @@ def run(ctx):
                         ctx.feature("removed-lanelet-had-shared-sign")
                     if op == "network.remove_lanelet":
                         net.remove_lanelet(victims[0])
-                        sc._id_set.discard(victims[0])
+                        _forget(sc, victims[0])
                         exp_s, exp_t = set(), set()
                     else:
                         ref = "noref" not in op
@@ -296,7 +304,7 @@ def run(ctx):
                         ctx.feature("removed-sign-was-in-stop-line")
                     if op.startswith("network"):
                         (net.remove_traffic_sign if cat == "signs" else net.remove_traffic_light)(v)
-                        sc._id_set.discard(v)
+                        _forget(sc, v)
                     elif cat == "signs":
                         sc.remove_traffic_sign(net.find_traffic_sign_by_id(v))
                     else:
@@ -311,9 +319,9 @@ def run(ctx):
                     if op.startswith("network"):
                         inter = net.find_intersection_by_id(v)
                         net.remove_intersection(v)
-                        sc._id_set.discard(v)
+                        _forget(sc, v)
                         for inc in inter.incomings:
-                            sc._id_set.discard(inc.incoming_id)
+                            _forget(sc, inc.incoming_id)
                     else:
                         sc.remove_intersection(net.find_intersection_by_id(v))
                     ctx.feature("op." + op)
